@@ -1284,6 +1284,17 @@ impl Property for C06 {
             if brng.chance(1, 12) && !cands.is_empty() && sc.script.env_actions.is_empty() {
                 let i = cands[brng.below(cands.len())];
                 sc.spec.cmd_files[i].broken = true;
+            } else if brng.chance(1, 14) && !sc.script.behav.is_empty() {
+                // one child closes both its output streams (`exec >build.log 2>&1`) and stays alive for 1.2-2.5 s
+                // of real time before it exits - half of the time with a failure: its status is what it exits with
+                let i = brng.below(sc.script.behav.len());
+                let b = &mut sc.script.behav[i];
+                b.outs.push(crate::rundrv::OutStep { fd: 1, hex: "-".into(), pause_ms: 0, close: true });
+                b.outs.push(crate::rundrv::OutStep { fd: 2, hex: "-".into(), pause_ms: 0, close: true });
+                b.exit_pause_ms = *brng.pick(&[1200u32, 1600, 2500]);
+                if b.code == 0 && brng.chance(1, 2) {
+                    b.code = *brng.pick(&[1, 3, 42]);
+                }
             }
         }
         to_val(&sc)
